@@ -150,6 +150,11 @@ func propC23(c *Check) {
 		}
 		c.Require(len(q) >= 1 && len(fin) == 1 && bad == "", "postgate", shortName(f)+"|success => queued", "every success return of QueueTransaction passes CacheQueueTransaction unless the transaction is already finalized", "a success return at "+bad+" is reachable without queueing", c.W.Pos(f.Pos()))
 	}
+	// (5b) every dequeued transaction is looked at: the loop over the retrieved list has no early
+	// exit (the queue records of the whole list are already deleted when the loop starts)
+	if f := c.F("(*kernel.Node).popAndProcessCacheQueue"); f != nil {
+		c.RangeLoop(f, "retrieved", Extract(0, Call("iface:storage.Store.CacheRetrieveTransactions")))
+	}
 	// (6) Badger's optimistic conflict detection stays on for both databases: the queue's
 	// retrieve-and-delete, the lock takers and the work credit all rely on a conflicting concurrent
 	// transaction being refused
